@@ -631,7 +631,7 @@ impl Property for C16 {
         1500
     }
     fn quick_cases(&self) -> u64 {
-        160_000
+        640_000
     }
     fn describe(&self, bytes: &[u8]) -> J {
         let case = decode(bytes);
